@@ -23,7 +23,7 @@ func init() {
 	Registry["C02"] = Spec{
 		Fn:          c02,
 		Level:       "exploration",
-		Rule:        "generated (Options, Query, client revision, server revision, compression) executions of Client.Do against the synchronous scripted server: ids/bodies empty/long/non-UTF8, 0..n connection-level and query-level settings with flags, parameters, secret, initial user, quota keys, span contexts, external data with/without table name, input columns drawn from the whole catalogue, one representative revision per interval of the feature table (and both neighbours of every threshold) on either side, {Disabled, None, LZ4, LZ4HC, ZSTD}. The recorded client byte stream is parsed by the reference codec at the negotiated revision and compared field by field with the expectation computed from the caller's inputs; nothing may be left over. Non-trivial = at least one of {settings, parameters, external data, input block, compression}; distinct = (field-presence vector, negotiated revision, compression, input type)",
+		Rule:        "generated (Options, Query, client revision, server revision, compression) executions of Client.Do against the synchronous scripted server: ids/bodies empty/long/non-UTF8, 0..n connection-level and query-level settings with flags (in a third of the cases one key appears on both levels or twice on one), parameters, secret, initial user, quota keys, span contexts, external data with/without table name, input columns drawn from the whole catalogue, one representative revision per interval of the feature table (and both neighbours of every threshold) on either side, {Disabled, None, LZ4, LZ4HC, ZSTD}. The recorded client byte stream is parsed by the reference codec at the negotiated revision and compared field by field with the expectation computed from the caller's inputs; nothing may be left over. Non-trivial = at least one of {settings, parameters, external data, input block, compression}; distinct = (field-presence vector, negotiated revision, compression, input type)",
 		Assumptions: []string{"reference stream parser harness/internal/simnet + ref; 'supported window': settings need revision >= 54429 (library limitation recorded under C17), parameters >= 54459 must otherwise be refused before anything is written"},
 		MinDistinct: 200,
 	}
@@ -105,6 +105,20 @@ func c02One(r *core.Run, ci int64, rng *rand.Rand, reps []int) {
 	}
 	if neg >= ref.RevSettingsAsStr {
 		q.Settings = genChSettings(rng, "query")
+		// the same key on both levels (same or another value), and a key repeated within one level:
+		// the packet carries every entry, connection level first, in the caller's order
+		if len(opt.Settings) > 0 && rng.Intn(3) == 0 {
+			dup := opt.Settings[rng.Intn(len(opt.Settings))]
+			if rng.Intn(2) == 0 {
+				dup.Value = c17Str(rng)
+			}
+			dup.Important = rng.Intn(2) == 0
+			at := rng.Intn(len(q.Settings) + 1)
+			q.Settings = append(q.Settings[:at:at], append([]ch.Setting{dup}, q.Settings[at:]...)...)
+			if rng.Intn(3) == 0 {
+				q.Settings = append(q.Settings, dup)
+			}
+		}
 	}
 	wantParams := rng.Intn(3) == 0
 	if wantParams {
